@@ -166,11 +166,77 @@ def slice : Op := fun j => do
     let r ← getR2 (← field j "region")
     pure (ratMatToJson (Impl.slice2d r (← getRatMat (← field j "rows"))))
 
+def getOptR2 (j : Json) : Except String (Option R2) :=
+  match j with
+  | Json.null => pure none
+  | _ => do pure (some (← getR2 j))
+
+def optR2ToJson : Option R2 → Json
+  | none => Json.null
+  | some r => r2ToJson r
+
+def cornerToJson : Corner → Json
+  | .c10 => intsToJson [1, 0]
+  | .c00 => intsToJson [0, 0]
+  | .c11 => intsToJson [1, 1]
+  | .c01 => intsToJson [0, 1]
+
+def layoutRegions (l : Impl.Layout2D) : Json :=
+  Json.arr #[optR2ToJson l.parallelOverscan, optR2ToJson l.serialPrescan, optR2ToJson l.serialOverscan]
+
+def get3 (j : Json) : Except String (Option R2 × Option R2 × Option R2) := do
+  match (← getArr j) with
+  | [a, b, c] => pure (← getOptR2 a, ← getOptR2 b, ← getOptR2 c)
+  | _ => throw "expected 3 regions"
+
+/-- `Layout2D(...)` with tuple regions -/
+def layoutNew : Op := fun j => do
+  let (h, w) ← match (← getNats (← field j "shape")) with
+    | [h, w] => pure (h, w)
+    | _ => throw "bad shape"
+  let c ← getCorner (← field j "corner")
+  let (po, sp, so) ← get3 (← field j "regions")
+  match Impl.layoutNew h w c po sp so with
+  | none => throw "bad_region"
+  | some l => pure (obj [("regions", layoutRegions l), ("roe", cornerToJson l.roe),
+                         ("shape", natsToJson [l.h, l.w])])
+
+/-- the whole Layout2D scenario of the harness, from the model: rotated_from_roe_corner,
+    new_rotated_from, layout_extracted_from, original_orientation_from, the overscan extractions on
+    the rotated array and Array2D.original_orientation. -/
+def layout : Op := fun j => do
+  let rows ← getRatMat (← field j "rows")
+  let h := rows.length
+  let w := (rows.head?.getD []).length
+  let c ← getCorner (← field j "corner")
+  let c2 ← getCorner (← field j "corner2")
+  let e ← getR2 (← field j "window")
+  let (po, sp, so) ← get3 (← field j "regions")
+  match Impl.layoutRotatedFromRoeCorner c h w po sp so with
+  | none => throw "bad_region"
+  | some lay =>
+  match lay.newRotatedFrom c2, lay.extractedFrom e with
+  | some lay2, some ext =>
+    let ra := lay.originalOrientationFrom rows
+    let optMat : Option (List (List Rat)) → Json := fun o => match o with
+      | none => Json.null
+      | some m => ratMatToJson m
+    pure (obj [("rotated", layoutRegions lay), ("roe", cornerToJson lay.roe),
+               ("shape", natsToJson [lay.h, lay.w]),
+               ("rotated2", layoutRegions lay2), ("roe2", cornerToJson lay2.roe),
+               ("extracted", layoutRegions ext),
+               ("orientation_from", ratMatToJson ra),
+               ("parallel_overscan_array", optMat (lay.extractParallelOverscan ra)),
+               ("serial_overscan_array", optMat (lay.extractSerialOverscan ra)),
+               ("original_orientation", ratMatToJson (Impl.arrayOriginalOrientation c rows))])
+  | _, _ => throw "bad_region"
+
 def ops : List (String × Op) :=
   [("c19.region_new", regionNew), ("c19.rotate_array", rotateArray),
    ("c19.rotate_region", rotateRegion), ("c19.rotate_slice", rotateSlice),
    ("c19.x0x1", x0x1), ("c19.after_extraction", afterExtraction),
-   ("c19.extract_slice", extractSlice), ("c19.sub_region", subRegion), ("c19.slice", slice)]
+   ("c19.extract_slice", extractSlice), ("c19.sub_region", subRegion), ("c19.slice", slice),
+   ("c19.layout", layout), ("c19.layout_new", layoutNew)]
 
 end Driver.C19
 
